@@ -271,6 +271,8 @@ def study_config_roundtrip(algo: int, noise: int, stopping: bool, lo: float, hi:
   """
   args = (algo, noise, stopping, lo, hi, key, val, endpoint)
   algo, noise = conc(algo, 1, 2), conc(noise, 0, 1)
+  if endpoint and (stopping or noise or algo != 1):
+    return True               # the endpoint case is explored for one base configuration only
   key = _KEYS[conc(key, 0, 3)]
   if not (_finite(lo) and _finite(hi) and lo <= hi):
     return True
